@@ -313,6 +313,8 @@ def main() -> int:
         sig = tuple(sorted((x["position"], x["bad"]) for x in descs))
         if res.get("exc"):
             ev.count("generator_crashed(C06)")
+            # the base document generates: a crash is caused by the inserted piece and takes everything else with it
+            vd.violation(f"generator_crashed:{descs[0]['position'] if len(descs) == 1 else 'multi'}:{res['exc'].get('type')}", f"{label}: inserting {descs} crashes the generator: {res['exc'].get('type')}: {res['exc'].get('msg', '')[:120]} at {res['exc'].get('site')}", dict(w, exc=res["exc"]))
             continue
         ev.count("pairs_compared")
         pos0 = descs[0]["position"] if len(descs) == 1 else "multi"
